@@ -697,6 +697,17 @@ func main() {
 		wt.run(x, r)
 		finish(x, "witness:"+wt.name)
 	}
+	// ---- systematic stream: singles / pairs / triples of operations on one validator in one block
+	plan, nTriples := sysPlan(r.Fork())
+	for _, t := range plan {
+		for _, st := range sysStarts {
+			x := newHist(0)
+			runSys(x, r, genID, st, t)
+			finish(x, sysName(st, t))
+		}
+	}
+	dist["systematic:tuples-run"] = len(plan)
+	dist["systematic:triples-existing"] = nTriples
 	// ---- generated histories
 	for i := 0; i < *n; i++ {
 		x := newHist(r.Intn(len(configs)))
@@ -743,6 +754,9 @@ func main() {
 func kindClass(k string) string {
 	if strings.HasPrefix(k, "witness:") {
 		return "witness"
+	}
+	if strings.HasPrefix(k, "sys:") {
+		return "systematic"
 	}
 	return k
 }
